@@ -372,7 +372,7 @@ class Logix( Message_Router ):
                                          SINT.tag_type, USINT.tag_type,
                                           INT.tag_type,  UINT.tag_type,
                                          DINT.tag_type, UDINT.tag_type,
-                                         LINT.tag_type, ULINT.tag_type),
+                                         LINT.tag_type),
                     ULINT.tag_type:	(BOOL.tag_type,
                                          USINT.tag_type,
                                          UINT.tag_type,
@@ -381,19 +381,19 @@ class Logix( Message_Router ):
                     DINT.tag_type:	(BOOL.tag_type,
                                          SINT.tag_type, USINT.tag_type,
                                           INT.tag_type,  UINT.tag_type,
-                                         DINT.tag_type, UDINT.tag_type),
+                                         DINT.tag_type),
                     UDINT.tag_type:	(BOOL.tag_type,
                                          USINT.tag_type,
                                          UINT.tag_type,
                                          UDINT.tag_type),
                     INT.tag_type:	(BOOL.tag_type,
                                          SINT.tag_type, USINT.tag_type,
-                                         INT.tag_type,   UINT.tag_type),
+                                         INT.tag_type),
                     UINT.tag_type:	(BOOL.tag_type,
                                          USINT.tag_type,
                                          UINT.tag_type),
                     SINT.tag_type:	(BOOL.tag_type,
-                                         SINT.tag_type, USINT.tag_type),
+                                         SINT.tag_type),
                     USINT.tag_type:	(BOOL.tag_type,
                                          USINT.tag_type),
                 }
